@@ -87,7 +87,11 @@ def _print_Piecewise(
         else:
             return printer._print(cond)
 
-    expr = sympy.simplify(expr)
+    simplified = sympy.simplify(expr)
+    if isinstance(simplified, sympy.Piecewise):
+        # simplify may collapse the Piecewise into a plain expression
+        # (e.g. when both branches coincide), in which case we keep the original
+        expr = simplified
 
     exprs = [printer._print(arg.expr) for arg in expr.args]
     conds = [print_cond(arg.cond) for arg in expr.args]
